@@ -226,7 +226,9 @@ func (i *Int) EuclideanDivVarTime(remainder *Nat, numerator, denominator *Int) (
 		qOut.Set(&qan)
 	}
 	// i may alias numerator: take the numerator's length before i is written.
-	qLen := min(numerator.AnnouncedLen(), numerator.AnnouncedLen()-denominator.TrueLen()+2)
+	// The Euclidean quotient of a negative numerator is the floor quotient of the magnitudes plus one,
+	// so it needs one bit even when |numerator| < |denominator|.
+	qLen := min(numerator.AnnouncedLen(), max(numerator.AnnouncedLen()-denominator.TrueLen()+2, 1))
 	i.Set(&qOut)
 	i.Resize(qLen)
 
